@@ -10,6 +10,8 @@ From IT.gen Require Import GenInventory.
 Open Scope string_scope.
 
 Theorem SRC_inventory_error : inv_error = [
+  ("use core :: fmt", ["#[cfg(not(feature='std'))]"]);
+  ("use std :: { error , fmt }", ["#[cfg(feature='std')]"]);
   ("enum NodeError", ["Debug"; "Clone"; "Copy"]);
   ("impl NodeError", ["as_str := { match self { NodeError :: AppendSelf => 'Can not append a node to itself' , NodeError :: PrependSelf => 'Can not prepend a node to itself' , NodeError :: InsertBeforeSelf => 'Can not insert a node before itself' , NodeError :: InsertAfterSelf => 'Can not insert a node after itself' , NodeError :: Removed => 'Removed node cannot have any parent, siblings, and children' , NodeError :: AppendAncestor => 'Can not append a node to its descendant' , NodeError :: PrependAncestor => 'Can not prepend a node to its descendant' , NodeError :: InsertBeforeAncestor => 'Can not insert a node before its descendant' , NodeError :: InsertAfterAncestor => 'Can not insert a node after its descendant' , } }"]);
   ("impl fmt::Display for NodeError", ["fmt := { f . write_str (self . as_str ()) }"]);
